@@ -25,7 +25,7 @@ DevPairOK(f) ==
     LET X == DOMAIN f IN
     \/ Cardinality(X) <= 1
     \/ /\ \E x \in X : x >= PairFrom
-       /\ \/ \A x \in X : f[x] \in PairKinds \cup {"nothing", "errors"}
+       /\ \/ \A x \in X : f[x] \in PairKinds \cup {"nothing", "errors"} \cup (IF Kind = "load" THEN {"dup"} ELSE {})
           \/ \E x \in X, y \in X : f[x] \in {"nonstate", "dup"} /\ f[y] = "badsig"
 
 \* the fault assignments explored for the candidate events R, app(x) being the kinds applicable to x
@@ -40,10 +40,12 @@ FaultChoices(R, app(_)) ==
 ProvChoices(A) == IF Sim THEN {[a \in A |-> RandomElement(ProvKinds)]} ELSE [A -> ProvKinds]
 
 StateBefore(e) == IF E[e].prev = {} THEN {} ELSE StateAt(E[e].prev)
+LaggingState(e) == IF E[e].prev = {} THEN {} ELSE StateBefore(MaxOf(E[e].prev))
 
 Blank == [kind |-> Kind, EM |-> E, F |-> [i \in Ids |-> NoFault], P |-> [i \in Ids |-> "returns"],
           al |-> {}, sl |-> {}, j |-> 0, e |-> 0, s |-> {}, sb |-> <<>>, av |-> FALSE, pm |-> "ok",
-          fail |-> FALSE, ok |-> FALSE, auth |-> {}, state |-> {}, askmin |-> {}, askmax |-> {}, cls |-> <<>>]
+          fail |-> FALSE, ok |-> FALSE, auth |-> {}, state |-> {}, askmin |-> {}, askmax |-> {}, cls |-> <<>>,
+          altok |-> FALSE, altcls |-> <<>>]
 
 GInit == Init /\ phase = "room" /\ sc = 0
 
@@ -120,7 +122,8 @@ PickChain ==
 (***************************************************************************)
 (* atstate: VerifyAuthRulesAtState of event e against the state the state  *)
 (* provider reports: the state before e (k = 0) or the state after another *)
-(* event k (a server whose view of the room differs)                       *)
+(* event k that does not come after e: an ancestor (a view that lags) or   *)
+(* an event of another branch (a view that knows what the sender did not)  *)
 (***************************************************************************)
 AtFaults(e) == {NoFault, "wrongroom"} \cup (IF CanDisallow(e) THEN {"disallowed"} ELSE {})
 
@@ -129,6 +132,7 @@ AtFaults(e) == {NoFault, "wrongroom"} \cup (IF CanDisallow(e) THEN {"disallowed"
 AtTuples ==
     {t \in (Ids \ {1}) \X ({0} \cup Ids) \X BOOLEAN \X {"ok", "ids_error", "state_error"} :
         /\ t[1] # t[2]
+        /\ (t[2] # 0 => t[1] \notin Ancestors(E, t[2]))
         /\ (t[2] # 0 => t[4] = "ok")
         /\ (~Sim /\ N > Base => t[1] = N \/ t[2] = N)}
 
@@ -139,28 +143,31 @@ PickAtState ==
        \E fe \in (IF Sim THEN {RandomElement(AtFaults(e))} ELSE AtFaults(e)) :
           \E F \in {Ext([x \in {e} |-> fe], NoFault)} : \E EM \in {Mutated(F)} :
           /\ sc' = [Blank EXCEPT !.EM = EM, !.F = F, !.e = e, !.s = S, !.av = av, !.pm = pm,
-                                 !.ok = AuthAtState(EM, F, e, S, av, pm)]
+                                 !.ok = AuthAtState(EM, F, e, S, av, pm),
+                                 !.altok = AuthAtStateCited(EM, F, e, S, av, pm)]
           /\ phase' = "done"
 
 (***************************************************************************)
 (* load: every event of the room is an input of LoadAndVerify; the state   *)
-(* provider reports the state before each event (sk = 0) or, for every     *)
-(* event, the state after the newest event                                 *)
+(* provider reports the state before each event (sk = 0) or lags one event *)
+(* behind (sk = 1: the state before the event's newest predecessor)        *)
 (***************************************************************************)
+\* ("dup": the input list carries the event twice)
 LoadApp(x, dis) ==
-    {"badsig", "malformed", "nothing", "errors"}
+    {"badsig", "malformed", "dup", "nothing", "errors"}
       \cup (IF x \in dis THEN {"disallowed"} ELSE {})
       \cup (IF DomainlessRoomIDs(Ver) /\ E[x].type = "create" THEN {} ELSE {"wrongroom"})
 
 PickLoad ==
     \E dis \in {{x \in Ids : CanDisallow(x)}} :
     \E d \in FaultChoices(Ids, LAMBDA x : LoadApp(x, dis)) :
-    \E sk \in (IF Sim THEN {RandomElement({0, N})} ELSE {0, N}) :
+    \E sk \in (IF Sim THEN {RandomElement({0, 1})} ELSE {0, 1}) :
        \E F \in {FOf(d)} : \E P \in {POf(d)} : \E EM \in {Mutated(F)} :
-       \E sb \in {[e \in Ids |-> IF sk = 0 THEN StateBefore(e) ELSE after[sk]]} :
+       \E sb \in {[e \in Ids |-> IF sk = 0 THEN StateBefore(e) ELSE LaggingState(e)]} :
        \E loc \in {LocalOK(EM, F, P)} :
        /\ sc' = [Blank EXCEPT !.EM = EM, !.F = F, !.P = P, !.sb = sb,
-                              !.cls = [e \in Ids |-> LoadClass(EM, F, P, loc, e, sb[e])]]
+                              !.cls = [e \in Ids |-> LoadClass(EM, F, P, loc, e, sb[e])],
+                              !.altcls = [e \in Ids |-> LoadClassCited(EM, F, P, loc, e, sb[e])]]
        /\ phase' = "done"
 
 Pick == CASE Kind = "state" -> PickState
@@ -222,5 +229,5 @@ Emit == Done => PrintT(ToJson(
     [kind |-> sc.kind, ver |-> Ver, events |-> [i \in Ids |-> EvJson(i)], al |-> sc.al, sl |-> sc.sl,
      j |-> sc.j, e |-> sc.e, s |-> sc.s, sb |-> sc.sb, av |-> sc.av, pm |-> sc.pm,
      fail |-> sc.fail, ok |-> sc.ok, auth |-> sc.auth, state |-> sc.state,
-     askmin |-> sc.askmin, askmax |-> sc.askmax, cls |-> sc.cls]))
+     askmin |-> sc.askmin, askmax |-> sc.askmax, cls |-> sc.cls, altok |-> sc.altok, altcls |-> sc.altcls]))
 =============================================================================
